@@ -396,7 +396,7 @@ def gmres(A: LinearOperator, B: torch.Tensor,
 
         h[..., k + 1, k] = torch.linalg.norm(y, dim=-2).reshape(-1, ncols)
         if torch.any(h[..., k + 1, k]) != 0 and k != max_niter - 1:
-            q[k + 1] = y / h[..., k + 1, k].reshape(*batchdims, 1, ncols)
+            q[k + 1] = y / _safedenom(h[..., k + 1, k].reshape(*batchdims, 1, ncols).clone(), eps)
 
         b = torch.zeros((*batchdims, ncols, k + 1), dtype=A.dtype, device=A.device)
         b = b.reshape(-1, ncols, k + 1)
